@@ -63,6 +63,10 @@ struct ReplyWorld : World {
 		return "{\"real\":[\"mpt_message_id2buf\",\"mpt_message_buf2id\",\"mpt_reply_deferrable (context, conversion to reply/reply-data pointers, reply, defer, deferred handle, unref/addref)\",\"mpt_reply_set\",\"mpt_context_reply\"],"
 		       "\"real (layer L1)\":[\"mpt_stream_input: next (mpt_stream_poll), dispatch (mpt_stream_dispatch, id header split, reply context, default reply), mpt_stream_reply, encoder and decoder queues, mpt_stream_flush\"],"
 		       "\"stub (layer L1)\":[\"requester: reference COBS encoder/decoder, request table\",\"descriptor pair: simulated channels with segment cuts, short and EAGAIN writes\"],"
+		       "\"real (layer L2)\":[\"struct connection with stream backend: mpt_connection_await, mpt_connection_push, mpt_connection_dispatch (streamWrapper, replyConnection, deferrable context), mpt_stream_sync, mpt_stream_poll/flush/push/reply, mpt_command_reserve/get/clear, mpt_connection_fini\"],"
+		       "\"stub (layer L2)\":[\"connection assembled by the harness as mpt_connection_open does after mpt_connect; out._idlen written directly\",\"descriptor pair: simulated pipes of capacity 5..4096\"],"
+		       "\"real (layer L3)\":[\"mpt_output_remote object through its input/object/output interfaces: remoteNext, remoteDispatch (mpt_connection_dispatch datagram path), remotePush, remoteAwait, remoteSync, mpt_connection_assign, mpt_outdata_push/recv/reply\"],"
+		       "\"stub (layer L3)\":[\"connected datagram socket pair behind recvmsg/sendmsg/sendto/poll/dup/getsockopt; delivery order, loss and duplication decided by the plan\",\"out._idlen written directly through the layout of the private out_data\"],"
 		       "\"stub\":[\"transport = send callback accepting or rejecting per plan\",\"allocator (ledger + n-th allocation fails)\",\"per-request bookkeeping (accepted at most once, id, reply mark)\"]}";
 	}
 	void gen(Rng &r, Plan &p, int tier) override {
